@@ -102,7 +102,7 @@ def strategy(tier):
                 c["roles"] = roles
         c["rhs"] = {"shape": draw(st.sampled_from(["vec", "col", "block"])), "k": draw(st.integers(2, 4)),
                     "cplx": draw(st.booleans()), "cplx2": draw(st.booleans()),
-                    "variant": draw(st.sampled_from(["random", "random", "dependent", "zerocol", "unit"]))}
+                    "variant": draw(st.sampled_from(["random", "random", "dependent", "zerocol", "unit", "colscales"]))}
         c["solver_idx"] = draw(st.sampled_from([0, 0, 0, 0, 1, 2, 3, 4, 5, 6, 7]))
         c["hint"] = draw(st.sampled_from([None, None, "hermitian", "symmetric"]))
         if module in ("SystemOfEquations", "StaticCondensation"):
@@ -262,6 +262,8 @@ def _rhs(rng, n, spec, cplx, allow_zero=True):
             b[:, -1] = 2.0 * b[:, 0] - (0.5 * b[:, 1] if b.shape[1] > 2 else 0.0)
         elif v == "zerocol" and allow_zero:
             b[:, 0] = 0.0
+        elif v == "colscales":     # load cases of very different magnitude; every column is a system of its own
+            b = b * np.array([1.0, 1e-9, 1e6, 1e-4][:b.shape[1]] + [1.0] * max(0, b.shape[1] - 4))[None, :]
     return b
 
 
@@ -275,11 +277,21 @@ def _scale_same_class(A, rng, sym, herm):
 
 def _be(A, x, b):
     """Normwise backward error |A x - b| / (|A||x| + |b|) (Frobenius)."""
-    r = np.linalg.norm(A @ x - b)
-    den = np.linalg.norm(A) * np.linalg.norm(x) + np.linalg.norm(b)
-    if not np.isfinite(r):
+    # judged column by column: each right-hand side is a system of its own (a tiny load case next to a large one must be
+    # solved as accurately as the large one)
+    x2, b2 = np.asarray(x).reshape(len(x), -1), np.asarray(b).reshape(len(b), -1)
+    if x2.shape[1] != b2.shape[1]:
         return np.inf
-    return 0.0 if r == 0 else float(r / den) if den > 0 else np.inf
+    nA = np.linalg.norm(A)
+    worst = 0.0
+    for k in range(b2.shape[1]):
+        r = np.linalg.norm(A @ x2[:, k] - b2[:, k])
+        den = nA * np.linalg.norm(x2[:, k]) + np.linalg.norm(b2[:, k])
+        if not np.isfinite(r):
+            return np.inf
+        e = 0.0 if r == 0 else (float(r / den) if den > 0 else np.inf)
+        worst = max(worst, e)
+    return worst
 
 
 def _col_relres(A, x, b):
